@@ -70,17 +70,24 @@ class DigitEvaluator(Evaluator):
     # ---- case split on the magnitude of the argument
     def compare(self, op, a, b, node=None):
         if self.magnitude is not None and isinstance(a, Rat) and isinstance(b, Rat):
-            sym, mag = self.magnitude
-            target = alg.fabs(sym)
+            sym, mag = self.magnitude[0], self.magnitude[1]
+            sign = self.magnitude[2] if len(self.magnitude) > 2 else None      # +1 / -1: the argument itself has this sign (then x and -x fold too)
+            targets = [(alg.fabs(sym), mag)]
+            if sign is not None:
+                targets += [(sym, sign * mag), (-sym, -sign * mag)]
             for u, v, flip in ((a, b, False), (b, a, True)):
                 c = v.as_fraction()
-                if c is not None and u.equals(target):
-                    self.thresholds.add(c)
-                    name = {ast.Lt: 'lt', ast.LtE: 'le', ast.Gt: 'gt', ast.GtE: 'ge', ast.Eq: 'eq', ast.NotEq: 'ne'}.get(type(op))
-                    if name is None:
-                        break
-                    l, r = (mag, c) if not flip else (c, mag)
-                    return Bool({'lt': l < r, 'le': l <= r, 'gt': l > r, 'ge': l >= r, 'eq': l == r, 'ne': l != r}[name])
+                if c is None:
+                    continue
+                for target, val in targets:
+                    if u.equals(target):
+                        if c != 0:
+                            self.thresholds.add(abs(c))
+                        name = {ast.Lt: 'lt', ast.LtE: 'le', ast.Gt: 'gt', ast.GtE: 'ge', ast.Eq: 'eq', ast.NotEq: 'ne'}.get(type(op))
+                        if name is None:
+                            break
+                        l, r = (val, c) if not flip else (c, val)
+                        return Bool({'lt': l < r, 'le': l <= r, 'gt': l > r, 'ge': l >= r, 'eq': l == r, 'ne': l != r}[name])
         return Evaluator.compare(self, op, a, b, node)
 
     # ---- formatting
